@@ -13,8 +13,8 @@ open Zc.Wire Zc.Wire.DecodeLib Zc.Wire.DecodeSpec
 
 /-- the listener only hands datagrams of at most 8966 bytes to the decoder -/
 theorem C02_guard (b : Bytes) (h : listenerAccepts b = true) : b.length ≤ 8966 := by
-  simp [listenerAccepts, Gen.Incoming.oversize] at h
-  omega
+  unfold listenerAccepts at h
+  exact GenFacts.Incoming.not_oversize_le (by simpa using h)
 
 /-- **Totality.** No exception leaves `DNSIncoming(b)` or `answers()`: every raise site of the
 decoder is an `IndexError` or an `IncomingDecodeError`, both are in `DECODE_EXCEPTIONS`, and the
